@@ -247,11 +247,11 @@ static void inc_lexically_normal (const char* abs_base, const char *name, char *
             *dest = 0;
           else
             *slash = 0;
-          from += 3;		/* skip "../" */
+          for (from += 3; *from == '/'; from++);	/* skip "../" and the slashes after it */
         }
       else if (!strncmp (from, "./", 2))
         {
-          from += 2;
+          for (from += 2; *from == '/'; from++);	/* skip "./" and the slashes after it */
         }
       else
         {			/* append first component to dest */
